@@ -1,6 +1,6 @@
 SPECIFICATION Spec
 CONSTANTS
- Fam = "sqn"
+ Fams = {"pow", "powT", "koch"}
  P <- PThorough
 INVARIANTS Theorems Emit
 CHECK_DEADLOCK FALSE
